@@ -19,6 +19,13 @@ F64 = torch.float64
 LAYERS = {'1': ('0', 'column'), '11': ('2', 'row'), '21': ('4', 'column')}
 
 
+def stage_prefix(stage):
+    """Stage 0 keeps the plain names; every pipeline stage is an
+    independent replica of the same sharded model under other names (no
+    activations are exchanged: K-FAC only sees local layers and groups)."""
+    return '' if stage == 0 else f'p{stage}_'
+
+
 def layers_of(cfg):
     n = 3 if cfg.get('gmodel', 'gpt2l') == 'gpt3l' else 2
     return dict(list(LAYERS.items())[:n])
@@ -70,7 +77,8 @@ class GptRun:
                                    self.mp, self.coord.model,
                                    self.groups['model'],
                                    seed=self.cfg.get('seed', 0))
-        return gptenv.PipelineModule(shard, self.topo)
+        return gptenv.PipelineModule(shard, self.topo,
+                                     prefix=stage_prefix(self.coord.pipe))
 
     def _mk_pre(self, model):
         from kfac.gpt_neox.preconditioner import GPTNeoXKFACPreconditioner
